@@ -13,10 +13,14 @@ for mode in ("FORMULINT_RAW_ONLY", "FORMULINT_NORMALISED_ONLY"):
     os.environ.pop("FORMULINT_RAW_ONLY", None); os.environ.pop("FORMULINT_NORMALISED_ONLY", None)
     os.environ[mode] = "1"
     print("=====", mode)
-    try:
-        code, ctx = run_property(prop, "quick", "/repo", ov, write_evidence=False, quiet=True)
-        for o in ctx.failures:
-            if len(sys.argv) > 3 and sys.argv[3] not in o.rule: continue
-            print(f"  {o.rule} | {o.instance[:100]} | {o.message[:400]}")
-    except AnalysisError as e:
-        print("  ANALYSIS-ERROR", e)
+    from formulint import rules as rules_pkg
+    mod = rules_pkg.load(prop)
+    for rid, _ in mod.RULES:
+        if len(sys.argv) > 3 and sys.argv[3] not in rid:
+            continue
+        try:
+            code, ctx = run_property(prop, "quick", "/repo", ov, write_evidence=False, quiet=True, only_rule=rid)
+            for o in ctx.failures:
+                print(f"  {o.rule} | {o.instance[:100]} | {o.message[:400]}")
+        except AnalysisError as e:
+            print("  ANALYSIS-ERROR", rid, e)
